@@ -814,39 +814,48 @@ func checkOrphanPass(c *Ctx, fn *ssa.Function) {
 			nUpd++
 			// the hashed blob, over every value that may reach it (one insert per branch of the cast, or one insert
 			// of a blob chosen by the cast)
-			var kv ssa.Value = op.Key
-			if hc, ok := strip(kv).(*ssa.Call); ok && len(hc.Call.Args) == 1 {
-				kv = hc.Call.Args[0]
-			}
-			// ... or one Marshal() call on a key chosen by the cast: then the alternatives are those of the receiver
-			viaRecv := false
-			if mc, ok := strip(kv).(*ssa.Call); ok && mc.Call.IsInvoke() && mc.Call.Method.Name() == "Marshal" {
-				if _, isPhi := strip(mc.Call.Value).(*ssa.Phi); isPhi {
-					kv, viaRecv = mc.Call.Value, true
+			for _, klf := range w.Leaves(op.Key, mu) {
+				var kv ssa.Value = klf.Val
+				if hc, ok := strip(kv).(*ssa.Call); ok && len(hc.Call.Args) == 1 {
+					kv = hc.Call.Args[0]
 				}
-			}
-			for _, lf := range w.Leaves(kv, mu) {
-				ke := w.Expr(lf.Val)
-				if viaRecv {
-					// render as the blob of that receiver, in the form the tests below expect
-					ke = "Marshal>(" + ke + ")"
+				var at ssa.Instruction = mu
+				if ki, ok := strip(klf.Val).(ssa.Instruction); ok && ki.Parent() != mu.Parent() {
+					at = ki
 				}
-				castOK, castFailed := false, false
-				for l := range lf.Facts {
-					if y, isNil, ok := nilTest(l); ok {
-						if ex, isEx := strip(y).(*ssa.Extract); isEx && ex.Index == 1 {
-							if cc, isCall := ex.Tuple.(*ssa.Call); isCall && strings.HasSuffix(calleeName(cc), "CastSSHPublicKeyToCertificate") {
-								castOK, castFailed = castOK || isNil, castFailed || !isNil
+				// ... or one Marshal() call on a key chosen by the cast: then the alternatives are those of the receiver
+				viaRecv := false
+				if mc, ok := strip(kv).(*ssa.Call); ok && mc.Call.IsInvoke() && mc.Call.Method.Name() == "Marshal" {
+					if _, isPhi := strip(mc.Call.Value).(*ssa.Phi); isPhi {
+						kv, viaRecv = mc.Call.Value, true
+					}
+				}
+				for _, lf := range w.Leaves(kv, at) {
+					ke := w.Expr(lf.Val)
+					for l := range klf.Facts {
+						lf.Facts[l] = true
+					}
+					if viaRecv {
+						// render as the blob of that receiver, in the form the tests below expect
+						ke = "Marshal>(" + ke + ")"
+					}
+					castOK, castFailed := false, false
+					for l := range lf.Facts {
+						if y, isNil, ok := nilTest(l); ok {
+							if ex, isEx := strip(y).(*ssa.Extract); isEx && ex.Index == 1 {
+								if cc, isCall := ex.Tuple.(*ssa.Call); isCall && strings.HasSuffix(calleeName(cc), "CastSSHPublicKeyToCertificate") {
+									castOK, castFailed = castOK || isNil, castFailed || !isNil
+								}
 							}
 						}
 					}
+					if strings.Contains(ke, "#0.Key)") && castOK {
+						viaCert = true
+					} else if strings.Contains(ke, "Marshal>("+listParam+"[") && !castOK {
+						plain = true
+					}
+					_ = castFailed
 				}
-				if strings.Contains(ke, "#0.Key)") && castOK {
-					viaCert = true
-				} else if strings.Contains(ke, "Marshal>("+listParam+"[") && !castOK {
-					plain = true
-				}
-				_ = castFailed
 			}
 		}
 	}
